@@ -158,7 +158,8 @@ Definition subst_items (s : list (nat * term)) (l : list item) : list item := ma
 (* invoke_macro::parse_args.  The enum MacroParamKind has its variant NAMES swapped (keyword `ident` parses
    to the variant called Expr and vice versa) and parse_args swaps them back, so the behaviour is the expected
    one: `$p: ident` takes an identifier, `$p: expr` an expression.  The replacement map is a HashMap: a
-   parameter name declared twice keeps the last actual. *)
+   parameter name declared twice keeps the last actual.  Since fix 7f45914 an `expr` actual that is not a primary /
+   postfix expression is substituted in parentheses: an actual is ONE node, as the terms of this model are. *)
 Definition act_ok (is_ident : bool) (a : term) : bool :=
   negb (par_term a) && (if is_ident then match a with TV (VId _) => true | _ => false end else true).
 Fixpoint bind_args (ps : list (nat * bool)) (acts : list term) (acc : list (nat * term)) : option (list (nat * term)) :=
